@@ -11,7 +11,7 @@ import (
 func init() { register("C12", "exploration", checkC12) }
 
 func checkC12(c *hx.Ctx) {
-	c.Rule("(a) intake: update and recover requests for every pairing of revealed key K_i and next commitment c_h(K_j) (4 keys x 4 keys x reveal hash {sha2-256, sha2-512} x commitment hash {sha2-256, sha2-512} x protocols allowing [256], [512], [256,512], [512,256]) and creates/recovers with equal/unequal update and recovery commitments - exhaustive; accepted iff the next commitment is not a commitment of the revealed key (under any enabled algorithm) and update != recovery commitment; (b) resolution: commitment cycles of length 1-5 (every rotation, every anchoring order of up to 5 operations, for the update and the recovery chain) under the online trace checker T3 (no commitment consumed twice, no successor already consumed) with step budget, compared with the reference model; non-trivial = pairing i==j or a history containing a full cycle")
+	c.Rule("(a) intake: update and recover requests for every pairing of revealed key K_i and next commitment c_h(K_j) (4 keys x 4 keys x reveal hash {sha2-256, sha2-512} x commitment hash {sha2-256, sha2-512} x protocols allowing [256], [512], [256,512], [512,256]) and creates/recovers with equal/unequal update and recovery commitments - exhaustive; keys carrying nonces: the same key material seen under one nonce, then revealed and re-committed under another nonce in the same process; accepted iff the next commitment is not a commitment of the revealed key (under any enabled algorithm) and update != recovery commitment; (b) resolution: commitment cycles of length 1-5 (every rotation, every anchoring order of up to 5 operations, for the update and the recovery chain) under the online trace checker T3 (no commitment consumed twice, no successor already consumed) with step budget, compared with the reference model; non-trivial = pairing i==j or a history containing a full cycle")
 	c.Set("exhaustive", true)
 	rng := c.Rng("keys")
 	typeSets := [][]string{{"P-256", "Ed25519", "secp256k1", "P-384"}}
@@ -116,6 +116,52 @@ func checkC12(c *hx.Ctx) {
 						c.Count("equal_commitments_rejected")
 						c.Distinct(fmt.Sprintf("equal|%v|%s|%s", algs, keys[i].Name, keys[i].Type))
 					}
+				}
+			}
+		}
+	}
+	// ---- (a2) keys with nonces (NonceSize 16): the commitment covers the nonce. In ONE process a valid request revealing
+	// (K, nonce1) is parsed first, then a request revealing (K, nonce2) that re-commits to (K, nonce2): nothing computed
+	// for the first may stand in for the second
+	{
+		nr := c.Rng("nonces")
+		for _, kt := range ref.KeyTypes {
+			for rep := 0; rep < c.N(2, 10); rep++ {
+				p := hx.BaseProtocol()
+				p.NonceSize = 16
+				v := hx.NewVersion(p, hx.VersionOpts{})
+				code := uint64(ref.SHA256)
+				seed := nr.Bytes(32)
+				k1, k2, other := ref.NewKey(kt, "K", seed), ref.NewKey(kt, "K", seed), ref.NewKey(kt, "O", nr.Bytes(32))
+				k1.Nonce, k2.Nonce, other.Nonce = ref.B64(nr.Bytes(16)), ref.B64(nr.Bytes(16)), ref.B64(nr.Bytes(16))
+				u := &Universe{Code: code, Suffix: "EiDsuffixsuffixsuffixsuffixsuffixsuffixsuffixsu", Proto: p, MaxDelta: 300}
+				k2p := []interface{}{patchAddServices(svcEntry("s", "t", "https://s.example"))}
+				for _, opk := range []string{"update", "recover"} {
+					mk := func(reveal *ref.Key, next string) *ref.Op {
+						if opk == "update" {
+							return u.MkSigned("upd", "update", reveal, "", next, k2p, SignedOpts{})
+						}
+						return u.MkSigned("rec", "recover", reveal, next, other.Commitment(code), k2p, SignedOpts{})
+					}
+					first := mk(k1, ref.NewKey(kt, "N", nr.Bytes(32)).Commitment(code))
+					self2 := mk(k2, k2.Commitment(code))
+					self1 := mk(k1, k1.Commitment(code))
+					c.Eval()
+					_, e1 := v.Parser.Parse(hx.Namespace, first.Request)
+					_, e2 := v.Parser.Parse(hx.Namespace, self2.Request)
+					_, e3 := v.Parser.Parse(hx.Namespace, self1.Request)
+					desc := fmt.Sprintf("%s, key type %s, same key material under two nonces", opk, kt)
+					if e1 != nil {
+						c.Violation("C12 intake rejected a valid request revealing a key with nonce: "+desc+": "+e1.Error(), map[string]interface{}{"request": string(first.Request), "protocol": p})
+						return
+					}
+					if e2 == nil || e3 == nil {
+						c.Violation(fmt.Sprintf("C12 intake accepted a request that re-commits to the key (with nonce) it reveals, after the same key material had been seen under another nonce: %s (second nonce accepted=%v, first nonce accepted=%v)", desc, e2 == nil, e3 == nil),
+							map[string]interface{}{"first_request": string(first.Request), "self_committing_request": string(self2.Request), "protocol": p})
+						return
+					}
+					c.Count("self_commit_with_nonce_rejected:" + opk)
+					c.Distinct("nonce|" + desc + fmt.Sprint(rep))
 				}
 			}
 		}
@@ -263,6 +309,8 @@ func checkC12(c *hx.Ctx) {
 	c.Floor("cycles_after_a_legitimate_prefix", 50)
 	c.Floor("cycles_closed_by_unpublished_operations", 50)
 	c.Floor("self_commit_rejected:update", 16)
+	c.Floor("self_commit_with_nonce_rejected:update", 5)
+	c.Floor("self_commit_with_nonce_rejected:recover", 5)
 	c.Floor("self_commit_rejected:recover", 16)
 	c.Floor("other_commit_accepted:update", 16)
 	c.Floor("equal_commitments_rejected", 4)
